@@ -80,6 +80,10 @@ CLAIMED = {
              'rng(seed) from a havocked mt19937: every state word afterwards is a term over the symbolic 32-bit seed alone (all generators replay); replay of the 7 generator forms after interleaved draws for concrete seeds; randi with the raw 32-bit '
              'engine outputs symbolic stays inside its inclusive bounds on every path of the real uniform_int_distribution (3 draws; single-value and negative ranges); snr / sinad / thd of c*x for symbolic c in (1e-3, 1e3): one feasible analysis path and a power ratio independent of c.',
              note='NOT decided: the statistical calibration (distribution shape, 6-sigma tolerance) and the 0.1 dB / 1.5 dB accuracies of thd / sinad on specified tones (numeric accuracy of a concrete analysis).'),
+ 'C12': dict(design='4/C12', text='LMS / NLMS / RLS, real and complex, length 2 (3 thorough), fed one sample at a time with x, d, step size, leakage / forgetting factor and diagonal load all symbolic, for 7 (all 2^n thorough) lock schedules: '
+             'e[k] is the very term d[k] - y[k]; y[k] == sum_j coeffs()[j]*x[k-j] with the coefficients read before sample k (polynomial identity decided by z3); locked samples leave coeffs() bit-unchanged; unlocked LMS / NLMS samples follow '
+             'coeffs*leak + mu*e*x[/(|u|^2+eps)] as a rational identity; real RLS from rest: final coefficients satisfy the exponentially weighted, diagonally regularised normal equations (n = 2); data-dependent paths are enumerated and replayed against an exact rational reference recursion.',
+             note='PARTIAL: convergence / misalignment (asymptotic, statistical premise) not decided; RLS normal equations only for 2 updates (3 updates exceed the solver budget); complex filters checked against the plain (unconjugated) product as the library defines it.'),
 }
 ALL = [json.loads(l)['id'] for l in open(os.path.join(V, 'properties.jsonl'))]
 NA_REASON = {}
